@@ -128,11 +128,15 @@ pub struct Node {
     pub data: Vec<DataDecl>,
     #[serde(default)]
     pub donedata: Option<DoneData>,
+    /// number of <invoke> elements of this state that cannot be started (their namelist names a location that
+    /// does not exist): each raises error.execution when the macrostep that entered the state ends
+    #[serde(default)]
+    pub bad_invokes: u8,
 }
 
 impl Node {
     pub fn new(id: &str, kind: Kind) -> Node {
-        Node { id: id.to_string(), kind, children: vec![], initial: Initial::Default, onentry: vec![], onexit: vec![], trans: vec![], data: vec![], donedata: None }
+        Node { id: id.to_string(), kind, children: vec![], initial: Initial::Default, onentry: vec![], onexit: vec![], trans: vec![], data: vec![], donedata: None, bad_invokes: 0 }
     }
 }
 
@@ -352,6 +356,9 @@ fn render_node_body(out: &mut String, n: &Node, dm: Dm, ind: usize) {
         render_trans(out, &t, dm, ind + 1);
         out.push_str(&format!("{}</initial>\n", pad));
     }
+    for _ in 0..n.bad_invokes {
+        out.push_str(&format!("{}<invoke type=\"scxml\" namelist=\"nosuchlocation\"><content><scxml xmlns=\"http://www.w3.org/2005/07/scxml\" version=\"1.0\" datamodel=\"null\" initial=\"k\"><final id=\"k\"/></scxml></content></invoke>\n", pad));
+    }
     for b in &n.onentry {
         render_block(out, "onentry", b, dm, ind);
     }
@@ -423,6 +430,8 @@ pub struct Profile {
     pub state_data: u64,
     /// per-mille probability that the mark of an evented transition also records _event.type / sendid / origin / origintype / invokeid
     pub event_fields: u64,
+    /// per-mille probability that a state holds an <invoke> that fails to start
+    pub bad_invoke: u64,
 }
 
 impl Profile {
@@ -450,6 +459,7 @@ impl Profile {
             donedata: 0,
             state_data: 0,
             event_fields: 0,
+            bad_invoke: 0,
         }
     }
 }
@@ -806,6 +816,9 @@ impl<'a> G<'a> {
                 node.onexit.push(b);
             }
         }
+        if depth > 0 && node.kind != Kind::Final && dm != Dm::Null && self.pm(self.p.bad_invoke) {
+            node.bad_invokes = if self.rng.chance(1, 4) { 2 } else { 1 };
+        }
         // initial
         let real: Vec<String> = node.children.iter().filter(|c| !c.kind.is_history()).map(|c| c.id.clone()).collect();
         if node.kind == Kind::State && !real.is_empty() {
@@ -891,6 +904,41 @@ impl<'a> G<'a> {
         let hist: Vec<String> = node.children.iter().filter(|c| c.kind.is_history()).map(|c| c.id.clone()).collect();
         if !hist.is_empty() && self.rng.chance(1, 3) {
             return vec![self.rng.pick(&hist).clone()];
+        }
+        // several targets: one per region (for two or more regions) of a <parallel> below the state; the regions
+        // that are not named are entered by default, the named ones exactly at the named states
+        if self.rng.chance(2, 3) {
+            fn parallels<'n>(n: &'n Node, depth: usize, out: &mut Vec<&'n Node>) {
+                for c in n.children.iter().filter(|c| !c.kind.is_history()) {
+                    if c.kind == Kind::Parallel {
+                        out.push(c);
+                    }
+                    if depth < 2 {
+                        parallels(c, depth + 1, out);
+                    }
+                }
+            }
+            let mut ps: Vec<&Node> = Vec::new();
+            parallels(node, 0, &mut ps);
+            if !ps.is_empty() {
+                let par = *self.rng.pick(&ps);
+                let mut targets = Vec::new();
+                for region in par.children.iter().filter(|c| !c.kind.is_history()) {
+                    if self.rng.chance(3, 4) {
+                        let mut c = vec![region.id.clone()];
+                        collect_descendants(region, &mut c);
+                        // prefer a state that is not what default entry would give: the last ones are the deepest / latest
+                        let k = if self.rng.chance(1, 2) { c.len() - 1 - self.rng.below(c.len().min(2) as u64) as usize } else { self.rng.below(c.len() as u64) as usize };
+                        targets.push(c[k].clone());
+                    }
+                }
+                if targets.len() >= 2 {
+                    if self.rng.chance(1, 4) {
+                        targets.reverse();
+                    }
+                    return targets;
+                }
+            }
         }
         vec![self.rng.pick(&cands).clone()]
     }
@@ -1018,6 +1066,28 @@ pub fn generate(rng: &mut Rng, p: &Profile, name: &str) -> Doc {
     if root.children.iter().filter(|c| c.kind != Kind::Final).count() == 0 {
         let id = g.fresh_id();
         root.children.insert(0, Node::new(&id, Kind::State));
+    }
+    // now and then a compound state that holds a <parallel> whose regions have children of their own: the shape
+    // that initial transitions with one target per region (and transitions into / out of nested regions) need,
+    // which the size-bounded random tree produces only rarely
+    if p.parallel > 0 && g.rng.chance(1, 6) {
+        let mut host = Node::new(&g.fresh_id(), Kind::State);
+        let mut par = Node::new(&g.fresh_id(), Kind::Parallel);
+        for _ in 0..g.rng.range(2, 3) {
+            let mut region = Node::new(&g.fresh_id(), Kind::State);
+            for _ in 0..g.rng.range(2, 3) {
+                let id = g.fresh_id();
+                region.children.push(Node::new(&id, Kind::State));
+            }
+            par.children.push(region);
+        }
+        if g.rng.chance(1, 2) {
+            let id = g.fresh_id();
+            host.children.push(Node::new(&id, Kind::State));
+        }
+        host.children.push(par);
+        let pos = g.rng.below(root.children.len() as u64 + 1) as usize;
+        root.children.insert(pos, host);
     }
     g.add_histories(&mut root, 0);
     if p.dm != Dm::Null {
